@@ -295,6 +295,15 @@ class Gen:
             else:
                 a, b = r.choice([(1, 0), (2, 0), (3, 0), (1, 0), (0, 0)])
                 self.w(('reg_thr %s %d %d %s u%d' % (m['tok'], a, b, fl, r.randrange(1, 9))) if reg else ('dereg_thr %s %d %d' % (m['tok'], a, b)))
+        elif a == 'task':
+            # task sources: run on the context's thread pool, fire once with the function's result
+            m = self.pick()
+            if not m: return
+            if r.random() < 0.85:
+                fl = r.choice(['-', '-', '-', 'h', 'l', 'n'])
+                self.w('reg_task %s %d %s u%d' % (m['tok'], r.choice([1, 1, 2, 3]), fl, r.randrange(1, 9)))
+            else:
+                self.w('dereg_task %s %d' % (m['tok'], r.choice([1, 2, 3])))
         elif a == 'srclen':
             m = self.pick()
             if m: self.w('srclen %s' % m['tok'])
@@ -397,7 +406,7 @@ def scenario(rng, kind=None):
     r = rng
     kind = kind or r.choice(['pill_batch_dereg', 'paused_flush', 'oneshot_stop', 'replace_inflight', 'stash_slices', 'tb_reconf',
                              'tick_eval', 'tb_batch', 'errno_batch', 'dup_refused', 'far_timers', 'refuse_self', 'stash_prio',
-                             'oneshot_regex', 'sub_collide', 'low_restart', 'stash_pause_stop'])
+                             'oneshot_regex', 'sub_collide', 'low_restart', 'stash_pause_stop', 'tasks'])
     L = ['ctx_reg %d' % r.randrange(2)]
     af = lambda: r.randrange(2)
     if kind == 'pill_batch_dereg':
@@ -480,6 +489,13 @@ def scenario(rng, kind=None):
         L += ['dispatch', 'stash h0 0', 'ret 1'] * k
         L += [r.choice(['pause h0', 'pause h0', 'srclen h0']), r.choice(['stop h0', 'stop h0', 'resume h0']), 'srclen h0', 'start h0',
               'unstash h0 %d' % r.choice([1, 9]), 'ret 1', 'tell h0 h0 p7 0', 'dispatch', 'dispatch', 'unstash h0 9', 'ret 1']
+    elif kind == 'tasks':
+        # task sources registered before / after start, across pause and resume, stop and restart, with batching
+        L += ['reg h0 A - %s' % r.choice(['-', 's', 't']), 'reg_task h0 1 - u1', r.choice(['start h0', 'dispatch']), 'ret 1',
+              'reg_task h0 2 %s u2' % r.choice(['-', 'l', 'h']), 'reg_task h0 1 - u3', 'dereg_task h0 2', 'srclen h0']
+        if r.random() < 0.4: L += ['batch_size h0 %d' % r.randrange(2, 4)]
+        L += [r.choice(['dispatch', 'pause h0', 'stop h0', 'srclen h0']), r.choice(['resume h0', 'start h0', 'dispatch']), 'ret 1',
+              'dispatch', 'dispatch', 'srclen h0', 'reg_task h0 2 - u4', 'dispatch', 'dispatch', 'ret 1', 'srclen h0']
     elif kind == 'tb_reconf':
         # a bucket is configured, drained, reconfigured (rates that share low bits), stopped, restarted
         L += ['reg h0 A - -', 'tb h0 %d %d' % (r.choice([1, 65536, 131072, 10 ** 9]), r.randrange(1, 4)), 'start h0']
@@ -644,6 +660,8 @@ def align(lines, out):
                 st['ok'] = False
                 return None
             r.out.append(o)
+            if o.startswith('BATCH'):
+                events.append(('B', o, r))      # (kept apart from the 'I' / 'R' events by Trace: only some oracles want them)
 
     while st['i'] < len(lines) and st['ok']:
         exec_op(0, None)
